@@ -334,6 +334,16 @@ class Discharger:
         else:
             d = self.defs.single(p["l"])
             q = None
+            if d is not None and d[0] == "call" and strip_generics(callee_name(d[3]) or "").split("::")[-1] == "len" and len(d[3]["args"]) == 1:
+                lk = self._len_key(d[3]["args"][0])
+                if lk is not None:
+                    return lk
+            if d is not None and d[0] == "st" and d[3]["k"] == "=" and (d[3]["rv"]["k"] in ("len", "ptrmeta") or (d[3]["rv"]["k"] == "un" and d[3]["rv"].get("op") == "PtrMetadata")):
+                src = d[3]["rv"].get("pl") or op_place(d[3]["rv"].get("a") or {})
+                if src is not None:
+                    lk = self._len_key({"cp": src})
+                    if lk is not None:
+                        return lk
             if d is not None and d[0] == "st" and d[3]["k"] == "=" and d[3]["rv"]["k"] == "use":
                 q = op_place(d[3]["rv"]["op"])
             if q is None or not q["p"]:
@@ -370,6 +380,50 @@ class Discharger:
             return kk if kk is not None else k
         return k
 
+    def _len_key(self, ref_op):
+        """key for `len` of the container a reference operand points to, when that container cannot change within the function"""
+        p = op_place(ref_op)
+        for _ in range(6):
+            if p is None:
+                return None
+            fields = [e for e in p["p"] if e != "*"]
+            if fields:
+                if p["l"] not in self._stable_bases() or not all(isinstance(e, dict) and "f" in e for e in fields):
+                    return None
+                k = ("L", p["l"], tuple(e["f"] for e in fields))
+                self._key_ty = getattr(self, "_key_ty", {})
+                self._key_ty[k] = "usize"
+                return k
+            d = self.defs.single(p["l"])
+            if d is None:
+                # an argument or a multiply-defined local: the container itself
+                if 1 <= p["l"] <= self.fn.argc and p["l"] in self._stable_bases() and not self.fn.local_ty(p["l"]).startswith("&mut"):
+                    k = ("L", p["l"], ())
+                    self._key_ty = getattr(self, "_key_ty", {})
+                    self._key_ty[k] = "usize"
+                    return k
+                return None
+            if d[0] == "st" and d[3]["k"] == "=":
+                rv = d[3]["rv"]
+                if rv["k"] in ("use", "cast"):
+                    p = op_place(rv["op"])
+                    continue
+                if rv["k"] == "ref" and not rv.get("mut"):
+                    p = rv["pl"]
+                    if not [e for e in p["p"] if e != "*"]:
+                        p = {"l": p["l"], "p": []}
+                    continue
+            if d[0] == "call" and strip_generics(callee_name(d[3]) or "").split("::")[-1] in ("deref", "as_slice", "as_ref", "borrow", "as_str", "as_bytes") and d[3]["args"]:
+                p = op_place(d[3]["args"][0])
+                continue
+            if p["l"] in self._stable_bases() and not self.fn.local_ty(p["l"]).startswith("&mut"):
+                k = ("L", p["l"], ())
+                self._key_ty = getattr(self, "_key_ty", {})
+                self._key_ty[k] = "usize"
+                return k
+            return None
+        return None
+
     def key_ty(self, k):
         if isinstance(k, tuple):
             return getattr(self, "_key_ty", {}).get(k)
@@ -401,7 +455,7 @@ class Discharger:
                 if dd and dd[0] == "st" and dd[3]["k"] == "=" and dd[3]["rv"]["k"] == "cast" and dd[3]["rv"]["ck"].startswith("Unsize"):
                     rp = self.defs.resolve_place(dd[3]["rv"]["op"])
                     if rp is not None:
-                        ty = self.fn.local_ty(rp["l"]) if not rp["p"] else ""
+                        ty = self.fn.local_ty(rp["l"]) if (not rp["p"] or rp["p"] == ["*"]) else ""
                         m = re.match(r"^&?(mut )?\[.*; (\d+)\]$", ty)
                         if m:
                             return int(m.group(2))
@@ -456,6 +510,21 @@ class Discharger:
                 return "const: negation of the constant %d" % vals[0]
             if ak == "BoundsCheck" and 0 <= vals[1] < vals[0]:
                 return "const: index %d < length %d" % (vals[1], vals[0])
+        if site.kind == "K4" and site.what.startswith("index:") and len(site.node.get("args") or []) == 2:
+            # `array[..c]`, `array[a..b]`, `array[a..]` on a fixed-size array with constant bounds
+            p0 = op_place(site.node["args"][0])
+            ty0 = self.fn.local_ty(p0["l"]) if p0 is not None and not p0["p"] else ""
+            m = re.match(r"^&(?:mut )?\[.*; (\d+)\]$", ty0)
+            rp = op_place(site.node["args"][1])
+            rd = self.defs.single(rp["l"]) if rp is not None and not rp["p"] else None
+            if m and rd and rd[0] == "st" and rd[3]["k"] == "=" and rd[3]["rv"]["k"] == "agg" and rd[3]["rv"].get("ak") == "adt":
+                n_arr = int(m.group(1))
+                adt = rd[3]["rv"]["adt"].split("::")[-1]
+                vals = [self.eval_const(o) for o in rd[3]["rv"]["ops"]]
+                if all(v is not None for v in vals):
+                    if (adt == "RangeTo" and 0 <= vals[0] <= n_arr) or (adt == "RangeFrom" and 0 <= vals[0] <= n_arr) \
+                            or (adt == "Range" and len(vals) == 2 and 0 <= vals[0] <= vals[1] <= n_arr):
+                        return "const: constant range %s within the array length %d" % (vals, n_arr)
         if site.kind == "K4" and site.what.startswith("to_digit:"):
             args = site.node["args"]
             if len(args) == 2:
@@ -796,6 +865,12 @@ class Discharger:
             if r:
                 return r
             lv = const_operand(ln)
+            ic = self.eval_const(ix)
+            lk = self.vkey(ln)
+            if ic is not None and lk is not None:
+                llo, lhi = self.range_of(lk, site.bb)
+                if llo is not None and ic < llo:
+                    return "guard: constant index %d below the length's lower bound %d" % (ic, llo)
             p = self.src_local(ix)
             if p is not None and not p["p"]:
                 lo, hi = self.range_of(p["l"], site.bb)
@@ -970,7 +1045,8 @@ class Discharger:
 
     def _nm(self, l):
         if isinstance(l, tuple):
-            return "%s.%s" % (self.fn.local_name(l[1]) or "_%d" % l[1], ".".join(str(x) for x in l[2]))
+            base = "%s%s" % (self.fn.local_name(l[1]) or "_%d" % l[1], "".join(".%s" % x for x in l[2]))
+            return "len(%s)" % base if l[0] == "L" else base
         return self.fn.local_name(l) or "_%d" % l
 
     # ---- dominating comparison facts
@@ -1001,6 +1077,13 @@ class Discharger:
                 out.append((bi, true_t, false_t, cmp_st["rv"]["op"],
                             self.vkey(a), self.eval_const(a),
                             self.vkey(c), self.eval_const(c)))
+            elif cmp_st is None and self.defs.single(p["l"]) is not None and self.defs.single(p["l"])[0] == "call" \
+                    and strip_generics(callee_name(self.defs.single(p["l"])[3]) or "").split("::")[-1] == "is_empty" and len(self.defs.single(p["l"])[3]["args"]) == 1:
+                lk = self._len_key(self.defs.single(p["l"])[3]["args"][0])
+                if lk is not None:
+                    true_t = t["else"] if 0 in m else m.get(1)
+                    false_t = m.get(0, t["else"])
+                    out.append((bi, true_t, false_t, "Eq", lk, None, None, 0))
             elif cmp_st is None or cmp_st["rv"]["k"] == "use":
                 # switch directly on an integer value: each target knows value == v
                 k = self.vkey(t["op"])
